@@ -51,14 +51,21 @@ Ctx(n) == [cur |-> {n}, pos |-> 1, size |-> 1]
 (***************************************************************************)
 (* Conversions (section 4: string(), number(), boolean())                  *)
 (***************************************************************************)
+\* [t |-> "fns", ids, strs]: a node-set of ANOTHER document (bound to a variable by the caller): ids are its nodes'
+\* places in that document (document order = ascending), strs their string-values in the same order.  It can be
+\* converted and compared like any node-set; navigating from it is outside what the specification determines.
+FirstStr(v) == IF v.ids = <<>> THEN <<>> ELSE v.strs[CHOOSE i \in 1..Len(v.ids) : \A j \in 1..Len(v.ids) : v.ids[i] <= v.ids[j]]
+IsNodes(v) == v.t \in {"ns", "fns"}
+NoNodes(v) == IF v.t = "ns" THEN v.v = {} ELSE v.ids = <<>>
 ToStr(d, v) ==
   CASE v.t = "ns" -> IF v.v = {} THEN <<>> ELSE StringValue(d, MinOf(v.v))
+    [] v.t = "fns" -> FirstStr(v)
     [] v.t = "num" -> NumToStr(v.v)
     [] v.t = "bool" -> IF v.v THEN <<"t", "r", "u", "e">> ELSE <<"f", "a", "l", "s", "e">>
     [] v.t = "str" -> v.v
     [] v.t = "numstr" -> UnkStr         \* the spelling is not determined, only its obligations
 ToNum(d, v) ==
-  CASE v.t = "ns" -> StrToNum(ToStr(d, v))
+  CASE v.t \in {"ns", "fns"} -> StrToNum(ToStr(d, v))
     [] v.t = "num" -> v.v
     [] v.t = "bool" -> IF v.v THEN NInt(1) ELSE NInt(0)
     [] v.t = "str" -> StrToNum(v.v)
@@ -66,6 +73,7 @@ ToNum(d, v) ==
 \* boolean() as a value (may be "unk")
 ToBoolV(d, v) ==
   CASE v.t = "ns" -> BoolV(v.v # {})
+    [] v.t = "fns" -> BoolV(v.ids # <<>>)
     [] v.t = "num" -> IF IsUnk(v.v) THEN Err("unk") ELSE BoolV(NumTrue(v.v))
     [] v.t = "bool" -> v
     [] v.t = "str" -> IF IsUnkStr(v.v) THEN Err("unk") ELSE BoolV(v.v # <<>>)
@@ -101,15 +109,17 @@ CmpAtoms(d, op, l0, r0) ==
 \* existential lifting over a set of atomic comparisons
 Exists(rs) == IF \E r \in rs : ~IsErr(r) /\ r.v THEN BoolV(TRUE)
               ELSE IF AnyErr(rs) THEN PickErr(rs) ELSE BoolV(FALSE)
+\* the string-values of a node-set operand (of the queried document or of another one)
+StrsOf(d, v) == IF v.t = "ns" THEN {StringValue(d, a) : a \in v.v} ELSE {v.strs[i] : i \in 1..Len(v.strs)}
 Compare(d, op, l, r) ==
-  IF l.t = "ns" /\ r.t = "ns" THEN
-    Exists({CmpAtoms(d, op, StrV(StringValue(d, a)), StrV(StringValue(d, b))) : a \in l.v, b \in r.v})
-  ELSE IF l.t = "ns" THEN
-    IF r.t = "bool" THEN CmpAtoms(d, op, BoolV(l.v # {}), r)
-    ELSE Exists({CmpAtoms(d, op, StrV(StringValue(d, a)), r) : a \in l.v})
-  ELSE IF r.t = "ns" THEN
-    IF l.t = "bool" THEN CmpAtoms(d, op, l, BoolV(r.v # {}))
-    ELSE Exists({CmpAtoms(d, op, l, StrV(StringValue(d, b))) : b \in r.v})
+  IF IsNodes(l) /\ IsNodes(r) THEN
+    Exists({CmpAtoms(d, op, StrV(a), StrV(b)) : a \in StrsOf(d, l), b \in StrsOf(d, r)})
+  ELSE IF IsNodes(l) THEN
+    IF r.t = "bool" THEN CmpAtoms(d, op, BoolV(~NoNodes(l)), r)
+    ELSE Exists({CmpAtoms(d, op, StrV(a), r) : a \in StrsOf(d, l)})
+  ELSE IF IsNodes(r) THEN
+    IF l.t = "bool" THEN CmpAtoms(d, op, l, BoolV(~NoNodes(r)))
+    ELSE Exists({CmpAtoms(d, op, l, StrV(b)) : b \in StrsOf(d, r)})
   ELSE CmpAtoms(d, op, l, r)
 
 (***************************************************************************)
